@@ -22,6 +22,58 @@ def is_counter_increment(kind, detail):
     return False
 
 
+def base_fn(key):
+    return key.split("::{closure")[0]
+
+
+def reconcile(ctx, R, residual, table_entries, msg_unreviewed, msg_excess):
+    """compare the undischarged sites found now with the reviewed per-(function, kind) ceilings.
+
+    Keys are normalised to the enclosing named function (closure <-> loop rewrites do not move a site). A site in excess of its function's
+    ceiling is matched against functions of the table that now have FEWER sites of the same kind than reviewed (or no longer exist): a site that
+    merely moved (helper inlined / function split / renamed) keeps the total per kind unchanged and is not reported. Only growth of the total
+    number of undischarged sites of a kind is a violation (a new panic-capable construct)."""
+    found = defaultdict(list)
+    for (key, kind), items in residual.items():
+        found[(base_fn(key), kind)] += items
+    ceil = defaultdict(int)
+    why = {}
+    for tk, ent in table_entries.items():
+        k, kind = tk.rsplit("|", 1)
+        ceil[(base_fn(k), kind)] += ent["ceiling"]
+        why[(base_fn(k), kind)] = ent["why"]
+    excess = defaultdict(list)    # kind -> [(fn, items beyond ceiling)]
+    deficit = defaultdict(int)
+    for (fn, kind), items in sorted(found.items()):
+        c = ceil.get((fn, kind), 0)
+        tk = "%s|%s" % (fn, kind)
+        if len(items) > c:
+            excess[kind].append((fn, items[c:], c, len(items)))
+            if c:
+                ctx.exception(R, tk, "%d/%d residual: %s" % (c, c, why[(fn, kind)]), items[0][0])
+        else:
+            ctx.exception(R, tk, "%d/%d residual: %s" % (len(items), c, why[(fn, kind)]), items[0][0])
+            deficit[kind] += c - len(items)
+    for (fn, kind), c in ceil.items():
+        if (fn, kind) not in found:
+            deficit[kind] += c
+    for kind, lst in sorted(excess.items()):
+        n_excess = sum(len(x[1]) for x in lst)
+        if n_excess <= deficit.get(kind, 0):
+            for fn, items, c, n in lst:
+                ctx.exception(R, "%s|%s|moved" % (fn, kind), "%d site(s) beyond this function's reviewed ceiling are matched by %d reviewed site(s) of the same "
+                              "kind that disappeared elsewhere (code moved between functions; the total number of undischarged %s sites did not grow)"
+                              % (len(items), deficit[kind], kind), items[0][0])
+            continue
+        for fn, items, c, n in lst:
+            tk = "%s|%s" % (fn, kind)
+            if c == 0:
+                for loc, detail in items:
+                    ctx.violated(R, tk, msg_unreviewed % kind, loc, detail if isinstance(detail, dict) else None)
+            else:
+                ctx.violated(R, tk, msg_excess % (n, kind, c, why.get((fn, kind), "")[:90]), items[-1][0], {"sites": [i[0] for i in items]})
+
+
 def run_census(ctx, R, reach, table_file, skip_kinds=("cast", "alloc", "loop"), skip_overflow_add=True):
     F = ctx.facts
     path = os.path.join(VERIF, "rules", "tables", table_file)
@@ -43,21 +95,16 @@ def run_census(ctx, R, reach, table_file, skip_kinds=("cast", "alloc", "loop"), 
     ctx.extra.setdefault("census", {})[R] = {"functions": len(reach), "sinks": total, "discharged_automatically": discharged}
     if os.environ.get("QV_CENSUS_GEN") == "1":
         tbl = {"residual": {}}
-        for (key, kind), items in sorted(residual.items()):
+        merged = defaultdict(list)
+        for (key, kind), items in residual.items():
+            merged[(base_fn(key), kind)] += items
+        for (key, kind), items in sorted(merged.items()):
             tk = "%s|%s" % (key, kind)
             old = table["residual"].get(tk, {})
             tbl["residual"][tk] = {"ceiling": len(items), "why": old.get("why") or WHY.get(kind.split(":")[0], "reviewed"), "at": [i[0].split(":")[-1] for i in items]}
         json.dump(tbl, open(path, "w"), indent=1)
         ctx.note("%s: residual table %s regenerated with %d entries" % (R, table_file, len(tbl["residual"])))
         return
-    for (key, kind), items in sorted(residual.items()):
-        tk = "%s|%s" % (key, kind)
-        ent = table["residual"].get(tk)
-        if ent is None:
-            for loc, detail in items:
-                ctx.violated(R, tk, "unreviewed %s site on this path: a panic here kills the worker / front end instead of yielding an error value" % kind, loc)
-        elif len(items) > ent["ceiling"]:
-            ctx.violated(R, tk, "%d %s site(s), reviewed ceiling is %d: a new panic-capable construct was added (%s)" % (len(items), kind, ent["ceiling"], ent["why"][:90]),
-                         items[-1][0], {"sites": [i[0] for i in items]})
-        else:
-            ctx.exception(R, tk, "%d/%d residual: %s" % (len(items), ent["ceiling"], ent["why"]), items[0][0])
+    reconcile(ctx, R, residual, table["residual"],
+              "unreviewed %s site on this path: a panic here kills the worker / front end instead of yielding an error value",
+              "%d %s site(s), reviewed ceiling is %d: a new panic-capable construct was added (%s)")
